@@ -329,8 +329,9 @@ var (
 	c19NamePool  = []string{"x", "y", "z", "v", "n", "e1", "é", "世界", "ünï", "a_b", "X", "q"}
 	c19HdrNames  = []string{"a", "fix_1", "é", "世界", "_", "Name9", "x", "ab"}
 	c19Comments  = []string{"# comment", "#", "# @@", "#@ x @", "# var x expression", "  # indented", "\t#tab", "# -foo(x)", "#  é 世界"}
-	c19WS1       = []string{" ", " ", " ", " ", "  ", "\t", " \t", "   "}
-	c19WS0       = []string{"", "", "", " ", "  ", "\t"}
+	c19WS1       = []string{" ", " ", " ", " ", "  ", "\t", " \t", "   ", " ", " ", " ", " ", " /* c */ ", "/*line evil.go:100:1*/ ", " /*line :7*/"}
+	c19WS0       = []string{"", "", "", " ", "  ", "\t", "", "", "", "", "", "/*line evil.go:100:1*/", "/**/"}
+	c19HdrWS     = []string{"", "", "", " ", "  ", "\t"} // in a header only blanks separate
 	c19Indent    = []string{"", "", "", " ", "  ", "\t", "\t\t", " \t ", "    "}
 	c19AfterCom  = []string{" ", " ", " ", " ", "", "  ", "\t", "\n", "\n  ", "\n\t", "\n\n  ", "\n# wrapped\n "}
 	c19BadTypes  = []string{"expresion", "Identifier", "Expression", "foo", "expr", "int", "ident", "é", "identifiers", "_"}
@@ -451,7 +452,7 @@ func (g *c19Gen) header(i int) string {
 	if g.oneIn("unnamed", 2) {
 		return "@@"
 	}
-	return "@" + g.pick("hl", c19WS0) + g.pick("hname", c19HdrNames) + fmt.Sprint(i) + g.pick("hr", c19WS0) + "@"
+	return "@" + g.pick("hl", c19HdrWS) + g.pick("hname", c19HdrNames) + fmt.Sprint(i) + g.pick("hr", c19HdrWS) + "@"
 }
 
 // change draws change i. needDecl forces at least one declaration line;
@@ -685,7 +686,7 @@ func (g *c19Gen) headerFault(kind string, i int) (line string, insert bool, off,
 	alt = -1
 	switch kind {
 	case "name-bad-rune":
-		hl, hr := g.pick("hl", c19WS0), g.pick("hr", c19WS0)
+		hl, hr := g.pick("hl", c19HdrWS), g.pick("hr", c19HdrWS)
 		prefix := g.pick("badPrefix", []string{"", "", "a", "ab_", "é", "世界x", "_", "éé"})
 		var bad string
 		if prefix == "" {
